@@ -35,3 +35,27 @@ def writer_cfg(kind: str, *, depth=2, events=5, attrs=1, indents="{FALSE}", maps
     if kind == "gen":
         return head + "CONSTRAINT EmitDone\nCHECK_DEADLOCK FALSE\n"
     raise ValueError(kind)
+
+
+# Context.tla: XsiPolicy "publish" since fix 8bcb570 (F4); CachePolicy "class" as shipped (F3 open)
+CONTEXT = {
+    "shipped": {"XsiPolicy": "inplace", "CachePolicy": "class"},
+    "repaired": {"XsiPolicy": "publish", "CachePolicy": "class"},
+}
+
+
+def context_variant() -> dict:
+    return CONTEXT[os.environ.get("XV_CONTEXT_VARIANT", "repaired")]
+
+
+def context_cfg(kind: str, *, threads=2, progs="{1, 2, 3, 4}", warmth='{"cold", "warm"}', view="View") -> str:
+    pol = _consts(context_variant())
+    base = f"CONSTANTS\n  Classes <- MCClasses\n  QNs <- MCQNs\n{pol}\n"
+    if kind == "trace":
+        return "SPECIFICATION TSpecR\n" + base + "CONSTRAINT Progress\nPOSTCONDITION Accepted\nCHECK_DEADLOCK FALSE\n"
+    head = "SPECIFICATION Spec\n" + base + f"  NThreads = {threads}\n  ProgIds = {progs}\n  Warmth = {warmth}\nVIEW {view}\n"
+    if kind == "mc":
+        return head + "INVARIANT SameAsAlone\nINVARIANT QuiescentIndex\nCHECK_DEADLOCK FALSE\n"
+    if kind == "gen":
+        return head + "CONSTRAINT EmitDone\nCHECK_DEADLOCK FALSE\n"
+    raise ValueError(kind)
